@@ -39,23 +39,23 @@ E3_NOTE = ("Trusted: the harness' in-memory / raw-TCP targets and its reading of
 CHECKS.update({
  "C09": dict(engine="E3 sidecar", level="fault_enumeration", ref="DESIGN.md §5 C09",
    technique="fault injection + state monitor: store write cut after every byte offset via RLIMIT_FSIZE in a child process, process killed inside the write via strace signal injection, SIGKILL of the real binary, repeated fresh Load() compared with previous/new assignment",
-   text="The fault space (pair of consecutive assignments x byte offset at which the store write stops) is finite and swept: thorough enumerates every offset for every ordered pair of 8 assignment shapes, quick every offset for four pairs and strided for the rest, plus the old-file-name fall-back path, plus a sweep in which the updating process is KILLED inside the store write (strace-injected SIGKILL, no clean-up code runs) followed by three restarts and an acknowledged follow-up update, plus SIGKILLs of the real `kvass sidecar` binary mid-update followed by a restart of the binary. Oracle: the next start succeeds and resumes exactly the previous or the new assignment (deep JSON equality incl. idle-since), the new one if the update was acknowledged.",
+   text="The fault space (pair of consecutive assignments x byte offset at which the store write stops) is finite and swept: thorough enumerates every offset for every ordered pair of 8 assignment shapes, quick every offset for four pairs and strided for the rest, plus the old-file-name fall-back path, plus a sweep in which the updating process is KILLED inside the store write (strace-injected SIGKILL, no clean-up code runs) followed by three restarts and an acknowledged follow-up update, a retry of the same update after a failed write (must then persist), plus SIGKILLs of the real `kvass sidecar` binary mid-update followed by a restart of the binary. Oracle: the next start succeeds and resumes exactly the previous or the new assignment (deep JSON equality incl. idle-since), the new one if the update was acknowledged.",
    note=E3_NOTE + " A write cut by RLIMIT_FSIZE is taken to leave the disk as a kill / full disk at that byte would; fsync / power-loss semantics of the file system are out of scope."),
  "C10": dict(engine="E3 sidecar", level="exploration", ref="DESIGN.md §5 C10",
    technique="runtime monitoring against an executable reference model of (status map, idle-since) after every operation",
-   text="Random operation sequences (updates with adds/removals/state flips/repeats/empty sets/job moves, scrapes through the real proxy, restarts on the same store) on one real sidecar; after every operation the sidecar's /targets/status/ and /runtimeinfo/ answers are compared with a small reference model: key set, state, retained statistics and health, fresh entries, counter restart exactly on normal->in_transfer, idle-since set once, stable, cleared on assignment.",
+   text="Random operation sequences (updates with adds/removals/state flips/repeats/empty sets/job moves, scrapes through the real proxy, restarts on the same store, updates arriving while a scrape of a kept target is held inside the harness transport, updates whose Prometheus-reload callback fails) on one real sidecar; after every operation the sidecar's /targets/status/ and /runtimeinfo/ answers are compared with a small reference model: key set, state, retained statistics and health, fresh entries, counter restart exactly on normal->in_transfer, idle-since set once, stable, cleared on assignment.",
    note=E3_NOTE),
  "C12": dict(engine="E3 sidecar", level="exploration", ref="DESIGN.md §5 C12",
    technique="runtime monitoring: byte-equality oracle at the Prometheus side of the real proxy over payload shapes x chunkings x encodings x short writes; race detector on the forwarding path",
-   text="Every payload shape (empty ... 8 MiB, parser-rejected and binary lines, a 256 KiB-1 line, a newline on the 64 KiB block boundary) x gzip/identity x every 2-way split of the wire bytes (small bodies) or random read sizes (large) x Prometheus side as instrumented writer with short writes or as a real HTTP hop x assigned/unassigned, plus concurrent scrapes of 8 targets over a real HTTP hop and rendezvous pairs of gzip scrapes held between request and streaming; the bytes Prometheus receives must equal the target's decompressed body, with its Content-Type and status 200. Runs from the -race binary.",
+   text="Every payload shape (empty ... 8 MiB, parser-rejected and binary lines, a 256 KiB-1 line, a newline on the 64 KiB block boundary) x gzip/identity x every 2-way split of the wire bytes (small bodies) or random read sizes (large) x Prometheus side as instrumented writer with short writes or as a real HTTP hop x assigned/unassigned, plus concurrent scrapes of 8 targets over a real HTTP hop and rendezvous pairs of gzip scrapes held between request and streaming, and scrapes during which the administrative stop is set or lifted (a complete 200 must still carry the target's bytes); the bytes Prometheus receives must equal the target's decompressed body, with its Content-Type and status 200. Runs from the -race binary.",
    note=E3_NOTE),
  "C13": dict(engine="E3 sidecar", level="fault_enumeration", ref="DESIGN.md §5 C13",
    technique="fault injection at every stage and every body offset behind the real proxy; outcome monitor on the Prometheus side (status / aborted response) and on /targets/status/",
-   text="One fault per case, enumerated: connect error, five non-200 codes, stalls beyond the timeout before headers and mid body, administrative stop, body breaking off at EVERY wire offset (identity and gzip, three error kinds incl. 'connection reset by peer'), multi-block bodies at block boundaries, and real TCP faults (short Content-Length, cut chunked body, RST), each seen through an instrumented writer and through a real net/http hop. Oracle: the Prometheus side sees non-200 or an aborted response, never a complete 200; health down with an error; counter +1; then recovery to up.",
+   text="One fault per case, enumerated: connect error, five non-200 codes, stalls beyond the timeout before headers and mid body, administrative stop, administrative stop set or lifted while the real request is in flight (the attempt may count either way but consistently: complete 200 with the full body and health up, or a failed response and health down), body breaking off at EVERY wire offset (identity and gzip, three error kinds incl. 'connection reset by peer'), multi-block bodies at block boundaries, and real TCP faults (short Content-Length, cut chunked body, RST), each seen through an instrumented writer and through a real net/http hop. Oracle: the Prometheus side sees non-200 or an aborted response, never a complete 200; health down with an error; counter +1; then recovery to up.",
    note=E3_NOTE + " A break after the whole content was delivered is also required to fail on the Prometheus side (Prometheus itself would fail such a scrape)."),
  "C14": dict(engine="E3 sidecar", level="exploration", ref="DESIGN.md §5 C14",
    technique="runtime monitoring against an arithmetic reference: payloads with per-sample relabel outcome known by construction; race detector on the statistics lock",
-   text="Random scrape / assignment / rule-reload sequences over two jobs with generated payloads (duplicates, label values needing escapes, 0-6000 samples) under six metric-relabel programs whose keep/drop outcome per sample is evaluated by plain string predicates in the harness; after every operation per-scrape totals, per-metric counts and their sums, the sliding integer mean of the last <=3 successful scrapes, total-series, /runtimeinfo/ sums and the head-series floor, and /samples/ aggregation are compared with the reference. Runs from the -race binary.",
+   text="Random scrape / assignment / rule-reload sequences over two jobs with generated payloads (duplicates, label values needing escapes, 0-6000 samples) under six metric-relabel programs whose keep/drop outcome per sample is evaluated by plain string predicates in the harness; after every operation per-scrape totals, per-metric counts and their sums, the sliding integer mean of the last <=3 successful scrapes, total-series, /runtimeinfo/ sums and the head-series floor, and /samples/ aggregation are compared with the reference; one scrape in five of an assigned target is held inside the harness transport while the identical assignment is re-posted (the scrape must count as any other). All cases run from the normal binary; the first 600 (thorough 6000) run once more, sequentially scheduled, from the -race binary.",
    note=E3_NOTE),
 })
 
@@ -66,11 +66,11 @@ E4_NOTE = ("Trusted: the configuration / target-group generators (documented lim
 CHECKS.update({
  "C02": dict(engine="E4 config", level="exploration", ref="DESIGN.md §5 C02",
    technique="differential runtime monitoring: the real discovery -> sidecar API -> generated file -> Prometheus loader -> real proxy pipeline vs. the vendored Prometheus on the original config; observation point = request leaving JobInfo.Cli",
-   text="For generated configurations and target groups the set of (final target labels, scheme://host/path?sorted-query really requested by the proxy) obtained through the whole sharded pipeline - real TargetsDiscovery, JSON assignment to 1-3 real sidecars, generated file re-loaded with config.Load, scrape.TargetsFromGroup on its static entries, request through the real Proxy.ServeHTTP - must equal what scrape.TargetsFromGroup yields on the original configuration; the comparison is repeated after a reload with edited relabel programs / path / scheme on the same discovery and sidecar objects. A differential oracle with the production Prometheus code as reference is the strongest oracle available for 'equivalent to one plain Prometheus'.",
+   text="For generated configurations and target groups the set of (final target labels, scheme://host/path?sorted-query really requested by the proxy) obtained through the whole sharded pipeline - real TargetsDiscovery, JSON assignment to 1-3 real sidecars, generated file re-loaded with config.Load, scrape.TargetsFromGroup on its static entries, request through the real Proxy.ServeHTTP - must equal what scrape.TargetsFromGroup yields on the original configuration; the coordinator side is wired as cmd/kvass/coordinator.go does (scrape manager, explorer and discovery share one ConfigInfo): after the first comparison the explorer probes every active target (stub exporter) and the same groups are re-sent without a reload, then the configuration is reloaded with edited relabel programs / path / scheme on the same objects, explored and re-sent again - the comparison is repeated after each of the four phases. A differential oracle with the production Prometheus code as reference is the strongest oracle available for 'equivalent to one plain Prometheus'.",
    note=E4_NOTE),
  "C11": dict(engine="E4 config", level="exploration", ref="DESIGN.md §5 C11",
    technique="differential runtime monitoring: generated file re-loaded with the Prometheus loader and compared field-wise with the loaded original, reflective walk over all Secret values, byte scan for job secrets",
-   text="Generated configurations with every auth kind, SD kind, alerting and remote read/write sections with unique secrets are pushed through a real sidecar's API together with assignments (incl. empty jobs and targets of unknown jobs), then a reload changing only external labels, a second configuration and a changed assignment, the file being re-checked after each; the generated file must load, have the same jobs in order (+ the self-monitoring job iff enabled), static entries one-to-one with assigned hashes, http scheme, the sidecar's proxy URL, no basic-auth/TLS, no job secret in its bytes, unchanged ingestion settings, and unchanged global/rule/alerting/remote sections including every secret value.",
+   text="Generated configurations with every auth kind, SD kind, alerting and remote read/write sections with unique secrets are pushed through a real sidecar's API together with assignments (incl. empty jobs and targets of unknown jobs), then a reload changing only external labels, a second configuration and a changed assignment, the file being re-checked after each; the generated file must load, have the same jobs in order (+ the self-monitoring job iff enabled), static entries one-to-one with assigned hashes, http scheme, the sidecar's proxy URL, no basic-auth/TLS, no job secret in its bytes, unchanged ingestion settings, and unchanged global/rule/alerting/remote sections including every secret value. Overlap cases: a slow call (big configuration or big assignment) and a fast call of the other kind reach one sidecar 0-15 ms apart; when both have returned the file must show the configuration pushed and the assignment posted.",
    note=E4_NOTE),
  "C15": dict(engine="E4 config", level="exploration", ref="DESIGN.md §5 C15",
    technique="runtime monitoring: bijection oracle between hashes and (labels, URL) over repeated rounds, permutations, label placement, fresh processes and single-component edits",
@@ -78,7 +78,7 @@ CHECKS.update({
    note=E4_NOTE),
  "C16": dict(engine="E4 config", level="exploration", ref="DESIGN.md §5 C16",
    technique="runtime monitoring: catalogue of single-setting edits (must change the hash) and re-renderings / external-label changes (must not), cross-process and through a sidecar's /runtimeinfo/",
-   text="For each generated configuration every applicable entry of a ~150-entry catalogue of single-setting edits must change the hash computed by the real ConfigManager, seven textual re-renderings and three external-label changes must not, the same bytes must hash identically whether loaded from a file in a nested directory (coordinator) or pushed as raw content (sidecar), in three fresh processes and inside a sidecar (as reported by /runtimeinfo/).",
+   text="For each generated configuration every applicable entry of a ~150-entry catalogue of single-setting edits must change the hash computed by the real ConfigManager, seven textual re-renderings and three external-label changes must not, the same bytes must hash identically whether loaded from a file in a nested directory (coordinator) or pushed as raw content (sidecar), in three fresh processes and inside a sidecar (as reported by /runtimeinfo/); a manager with an in-place rewriting reload callback (as cmd/kvass registers for its --inject options) must keep the content's hash through reload / stop reason set / repeated / cleared / reload, and so must the real `kvass sidecar --inject.kubernetes-sa-path=...` process (hash read from its /runtimeinfo/ after the same steps over HTTP).",
    note=E4_NOTE + " Pure list re-ordering is not asserted either way."),
 })
 
@@ -86,7 +86,7 @@ CHECKS.update({
 CHECKS.update({
  "C17": dict(engine="E5 discovery/explorer", level="exploration", ref="DESIGN.md §5 C17",
    technique="runtime monitoring: (1) reference-model monitor after every step, (2) recorded concurrent histories checked for linearizability with porcupine, (3) Go race detector with attribution to reader/writer pairs of the tables",
-   text="The real TargetsDiscovery and Explore, wired and fed as in cmd/kvass/coordinator.go, are driven with sequences of full updates, partial first rounds and reloads that add/remove/keep jobs. Monitor 1 compares all four read APIs with a reference model after every step and re-checks earlier snapshots; monitor 2 records reads of 4-8 concurrent goroutines against a single writer (unique version per update) and checks each short history with porcupine against a sequential job->version map (a kept job may never be missing); monitor 3 repeats such histories under -race; monitor 4 runs WaitInit against scripted first-round arrivals (it must not return before every configured job had its first round).",
+   text="The real TargetsDiscovery and Explore, wired and fed as in cmd/kvass/coordinator.go, are driven with sequences of full updates, partial first rounds and reloads that add/remove/keep jobs. Monitor 1 compares all four read APIs with a reference model after every step - a third of the update runs are sent back to back (2-4 updates, nobody waits for the explorer in between) and judged after the last - and re-checks earlier snapshots; monitor 2 records reads of 4-8 concurrent goroutines against a single writer (unique version per update) and checks each short history with porcupine against a sequential job->version map (a kept job may never be missing); monitor 3 repeats such histories under -race; monitor 4 runs WaitInit against scripted first-round arrivals (it must not return before every configured job had its first round).",
    note="Trusted: the harness' feeding of the discovery channel (what the Prometheus discovery manager would send) and porcupine v1.3.0. Updates and reloads are issued by one writer: update-reload races are outside the property. Held = held on the observed histories; porcupine timeout = inconclusive."),
  "C18": dict(engine="E6 kubernetes fake", level="exploration", ref="DESIGN.md §5 C18",
    technique="runtime monitoring on a client-go fake clientset: returned shards and the recorded API actions / objects judged; exhaustive sweep of the bounded parameter grid",
@@ -107,7 +107,7 @@ E2_NOTE = ("Trusted: the simulated Prometheus (re-reads the generated file with 
 CHECKS.update({
  "C03": dict(engine="E2 closed loop", level="exploration", ref="DESIGN.md §5 C03",
    technique="runtime monitoring of a closed loop: convergence/stability predicate over sidecar API snapshots after every cycle, per-cycle scale-up obligation monitor",
-   text="Generated worlds (limits, min/max, three idle-time modes, residue of head series, late pods, initial placements incl. overloaded shards, duplicates, pending transfers and leftovers of interrupted transfer chains written into the stores) run a perturbed phase (growth, targets added/removed, uneven scrape rounds) and then a quiet phase in which the bounded restatement of the property must hold: converged and unchanged for 5 cycles within B = 10+4T+3*8 cycles. Every cycle is additionally checked for the scale-up obligation.",
+   text="Generated worlds (limits, min/max, three idle-time modes, residue of head series, late pods, initial placements incl. overloaded shards, duplicates, pending transfers and leftovers of interrupted transfer chains written into the stores) run a perturbed phase (growth, targets added/removed, uneven scrape rounds) and then a quiet phase in which the bounded restatement of the property must hold: converged and unchanged for 5 cycles within B = 10+4T+3*8 cycles (a fitting target may stay unscraped only when max-shard is reached and no shard has room for it next to what it holds: the property presupposes enough allowed shards). One workload in six drains every target early and refills late (shards idle, possibly scaled to zero). Every cycle is additionally checked for the scale-up obligation.",
    note=E2_NOTE),
  "C06": dict(engine="E2 closed loop", level="fault_enumeration", ref="DESIGN.md §5 C06",
    technique="fault injection at harness-owned boundaries of a closed loop, enumerated single-fault placements + sampled/enumerated pairs, bounded-recovery monitor",
@@ -115,7 +115,7 @@ CHECKS.update({
    note=E2_NOTE),
  "C19": dict(engine="E1 stub-cycle", level="exploration", ref="DESIGN.md §5 C19",
    technique="differential runtime monitoring: request traces of a replica run alone vs. next to a hostile replica (both orders), multi-cycle, real coordinator",
-   text="For scripted multi-cycle scenarios the canonical trace of everything a replica's shards and manager receive is recorded when the replica is coordinated alone and when a hostile replica (listing or scaling failures, unready, out of sync, another placement of the same targets) is coordinated before or after it in the same cycles; the traces must be identical cycle by cycle. Cases whose own outcome depends on map order are detected by 30 (+100 on a mismatch) repetitions of the victim alone and discarded.",
+   text="For scripted multi-cycle scenarios the canonical trace of everything a replica's shards and manager receive is recorded when the replica is coordinated alone and when a hostile replica (listing or scaling failures, unready, out of sync, another placement of the same targets) is coordinated before or after it in the same cycles; the traces must be identical cycle by cycle. Cases whose own outcome depends on map order are detected by 30 (+100 on a mismatch) repetitions of the victim alone and discarded when those repetitions are mixed; if the victim alone behaves differently from before in 100 of 100 repetitions after the other replica has been coordinated in the same process, that is reported as state leaking between replicas (also probed after every case).",
    note=E1_NOTE + " A mismatch is reported only if 130 executions of the victim alone all produce the reference trace."),
 })
 
